@@ -346,7 +346,7 @@ func H_C08_Cascade(shape int) {
 // ---- association lookups and preloads of a soft-deletable target: every query on
 // the target's table keeps deleted rows out
 
-var c08Lookups = []string{"association-find-belongs-to", "association-count-belongs-to", "association-find-has-many", "association-count-has-many", "preload-belongs-to", "preload-has-many", "association-find-has-many-conds"}
+var c08Lookups = []string{"association-find-belongs-to", "association-count-belongs-to", "association-find-has-many", "association-count-has-many", "preload-belongs-to", "preload-has-many", "association-find-has-many-conds", "count-then-find-same-chain", "find-then-count-same-chain", "count-then-first-same-chain"}
 
 func N_C08_Lookups(tier int) int { return len(c08Lookups) }
 
@@ -390,6 +390,29 @@ func H_C08_Lookups(shape int) {
 		a := db.Model(&Binder{ID: uint(id)}).Association("Sheets")
 		a.Count()
 		err = a.Error
+	case "count-then-find-same-chain", "find-then-count-same-chain", "count-then-first-same-chain":
+		// the pagination idiom on one chain value: a second finisher on the chain the first one ran on
+		tx := db.Model(&Doc{}).Where("rank > ? OR rank < ?", 1, -1)
+		var n int64
+		var ds []Doc
+		var d Doc
+		switch kind {
+		case "count-then-find-same-chain":
+			err = tx.Count(&n).Error
+			if err == nil {
+				err = tx.Limit(2).Find(&ds).Error
+			}
+		case "find-then-count-same-chain":
+			err = tx.Find(&ds).Error
+			if err == nil {
+				err = tx.Count(&n).Error
+			}
+		default:
+			err = tx.Count(&n).Error
+			if err == nil {
+				tx.First(&d) // no row in the stub: ErrRecordNotFound is not the subject here
+			}
+		}
 	case "preload-belongs-to":
 		var hs []Holder
 		err = db.Preload("Doc").Find(&hs).Error
